@@ -158,7 +158,12 @@ func WithCancel(parent context.Context) (context.Context, context.CancelFunc) {
 // DeadlineExceeded without a real timer).
 func WithTimeout(parent context.Context, d time.Duration) (context.Context, context.CancelFunc) {
 	s := must()
-	ctx, cancel := context.WithCancelCause(parent)
+	inner, cancel := context.WithCancelCause(parent)
+	dl := Now().Add(d)
+	if pd, ok := parent.Deadline(); ok && pd.Before(dl) {
+		dl = pd
+	}
+	var ctx context.Context = &deadlineCtx{Context: inner, deadline: dl}
 	t := s.addTimer(d, fmt.Sprintf("ctx-timeout(%v)", d), func() { cancel(context.DeadlineExceeded) })
 	return ctx, func() {
 		if s.killing {
@@ -171,6 +176,15 @@ func WithTimeout(parent context.Context, d time.Duration) (context.Context, cont
 		}})
 	}
 }
+
+// deadlineCtx adds Deadline() to a cancel context; everything else (Done, Err, Value, and with it the
+// standard library's cancellation propagation to children) is the embedded context's.
+type deadlineCtx struct {
+	context.Context
+	deadline time.Time
+}
+
+func (c *deadlineCtx) Deadline() (time.Time, bool) { return c.deadline, true }
 
 // WithDeadline is context.WithDeadline in virtual time.
 func WithDeadline(parent context.Context, at time.Time) (context.Context, context.CancelFunc) {
